@@ -662,6 +662,12 @@ def check_history(ctx, lab, probe, application, asset, history):
     dirs = [lab.directory() for _ in range(history['registries'])]
     model = [dict() for _ in dirs]  # release -> [ordinal per generation]
     selector = application.Latest('p', configured, refresh=INTERVAL)
+    if len(history['events']) % 2:
+        # descriptors (and their selectors) travel pickled to the serving processes: the copy is the one that serves
+        import pickle
+
+        ctx.count('latest_selectors_pickled')
+        selector = pickle.loads(pickle.dumps(selector))
     cached = [False] * len(dirs)  # a select succeeded => the selector serves from its cache from now on
     allowed = [set() for _ in dirs]  # model states acceptable for a cached select
     last_commit = [0] * len(dirs)  # logical time of the latest registry change
